@@ -110,7 +110,12 @@ func (c *clientWrapper) Stream(ctx context.Context, req client.Request, opts ...
 		defer entry.Exit()
 		opts = append(opts, WithSelectOption(entry))
 		opts = append(opts, WithCallWrapper(entry))
-		return c.Client.Stream(ctx, req, opts...)
+		// go-micro applies call wrappers to Call only: a failed Stream is traced here
+		stream, err := c.Client.Stream(ctx, req, opts...)
+		if err != nil {
+			sentinel.TraceError(entry, err)
+		}
+		return stream, err
 	}
 }
 
